@@ -336,20 +336,21 @@ def import_processors(F):
 
 
 def rule_every_import_followed(ck, F, rule="R1"):
-    """Every `import` child of a schema is followed, wherever it stands among the children: the loop that hands a child to the
-    import processor ranges over all children of the schema (no adaptor that ends the walk early, no `while let .. next_if`, no
-    exit other than the returned error)."""
+    """Every `import` child of a schema is followed, wherever it stands among the children: what an import brings in arrives through
+    the merge `fn(&mut RustDocument, RustDocument)`; the loop from which the merge is reached (directly, or through a handler that
+    is given one child) ranges over all children of the schema — no adaptor that ends the walk early, no hand-written
+    `while let .. next_if`, no exit other than the returned error."""
     from rules import c02 as C02
-    procs = set(import_processors(F))
-    if not procs:
-        ck.undecided(rule, "imports:processor", "-", "the function that follows an import (Node, &Files) -> RustDocument was not found")
+    merge = A.merge_fn(F)
+    if merge is None:
+        ck.undecided(rule, "imports:processor", "-", "the function that merges an imported document into the importing one was not found")
         return
-    n = 0
-    for b in F.lib.bodies:
-        if b.get("hir") is None or b.get("closure") or "tests::" in b["path"] or b["path"] in procs:
-            continue
-        nb = Hh.norm_body(b)
-        short = b["path"].rsplit("::", 1)[-1]
+    handlers = {merge}
+    bodies = [b for b in F.lib.bodies if b.get("hir") is not None and not b.get("closure") and "tests::" not in b["path"] and b["path"] != merge]
+    sites = []       # (body, call node, enclosing loops)
+
+    def scan(b, nb):
+        found = []
 
         def visit(e, loops):
             if isinstance(e, list):
@@ -359,8 +360,8 @@ def rule_every_import_followed(ck, F, rule="R1"):
             if not isinstance(e, dict):
                 return
             k = e.get("k")
-            if k in ("Call", "MethodCall") and (Hh.callee_path(e) or "") in procs:
-                judge(e, loops)
+            if k in ("Call", "MethodCall") and (Hh.callee_path(e) or "") in handlers:
+                found.append((e, loops))
             if k in ("For", "Loop"):
                 loops = loops + [e]
             elif k == "MethodCall" and e.get("name") in ("for_each", "try_for_each", "map", "filter_map", "flat_map", "fold", "try_fold", "find_map", "any", "all"):
@@ -368,15 +369,36 @@ def rule_every_import_followed(ck, F, rule="R1"):
             for key, v in e.items():
                 if isinstance(v, (dict, list)):
                     visit(v, loops)
-
-        def judge(call, loops):
-            nonlocal n
+        visit(nb["value"], [])
+        return found
+    # a function that reaches the merge outside any loop and is given a node is a handler of one child: judged where it is called
+    for _ in range(3):
+        grew = False
+        for b in bodies:
+            if b["path"] in handlers:
+                continue
+            nb = Hh.norm_body(b)
+            f_ = next((x for x in A._fn_items(F) if x["path"] == b["path"]), None)
+            takes_node = f_ is not None and any("roxmltree::Node<" in A._norm_ty(x) for x in f_["inputs"])
+            found = scan(b, nb)
+            if found and all(not loops for _e, loops in found) and takes_node and not any(l_ for _e, l_ in found):
+                # .. unless it is itself the reader of the schema element (it walks the children somewhere else): then the merge is
+                # not reached per child at all
+                handlers.add(b["path"])
+                grew = True
+        if not grew:
+            break
+    n = 0
+    for b in bodies:
+        if b["path"] in handlers:
+            continue
+        nb = Hh.norm_body(b)
+        short = b["path"].rsplit("::", 1)[-1]
+        for call, loops in scan(b, nb):
+            if not loops:
+                continue
             n += 1
             site = Hh.sp(call)
-            if not loops:
-                # handed the import by a caller: judged where the caller loops
-                n -= 1
-                return
             lp = loops[-1]
             if lp.get("k") == "For":
                 src = C02._iter_source(nb, lp)
@@ -384,7 +406,7 @@ def rule_every_import_followed(ck, F, rule="R1"):
                 C02._find_exits(lp["body"], exits, in_closure=False)
                 bad = [a for a in TRUNCATING if f".{a}(" in src]
                 if "children(" not in src and "descendants(" not in src:
-                    ck.undecided(rule, f"imports:source:{short}", site, f"{short}: what the loop around the import processor ranges over was not recognised: {src[:100]}")
+                    ck.undecided(rule, f"imports:source:{short}", site, f"{short}: what the loop that follows the imports ranges over was not recognised: {src[:100]}")
                 elif bad or exits:
                     why = f"passes through `{bad[0]}`" if bad else f"is left with `{exits[0][0]}`"
                     ck.violation(rule, f"imports:all-children:{short}", site,
@@ -401,13 +423,11 @@ def rule_every_import_followed(ck, F, rule="R1"):
                 bad = [a for a in TRUNCATING if f".{a}(" in src] + ([lp["name"]] if lp["name"] in ("find_map", "any", "all") else [])
                 if bad:
                     ck.violation(rule, f"imports:all-children:{short}", site,
-                                 f"{short}: the children handed to the import processor pass through `{bad[0]}`, which can end the walk early: an `import` behind "
-                                 f"that point is not followed", fn=short)
+                                 f"{short}: the children from which the imports are followed pass through `{bad[0]}`, which can end the walk early: an `import` "
+                                 f"behind that point is not followed", fn=short)
                 else:
                     ck.ok(rule, f"imports:all-children:{short}", site, f"{short}: the imports are followed from a walk over all children of the schema", fn=short)
-
-        visit(nb["value"], [])
-    ck.floor(rule, "calls of the import processor judged", n, 1)
+    ck.floor(rule, "places from which imports are followed", n, 1)
 
 
 def _root_is_files(B, o):
